@@ -484,6 +484,8 @@ static void l_exec(const plan_t *p)
         reentrant = 1;
         PROBE("comparator_reenters_library");
     }
+    /* objects are initialised on memory that holds junk, as on a stack: an init that forgets a field shows deterministically */
+    memset(dl, (int)(unsigned char)p->cfg[CF_JUNK], sizeof dl); memset(sl, (int)(unsigned char)p->cfg[CF_JUNK], sizeof sl);
     for (i = 0; i < MAXL; i++) {
         md[i].kind = (int)(p->cfg[CF_HET] >> i & 1); ms[i].kind = (int)(p->cfg[CF_HET] >> (4 + i) & 1);
         cstl_dlist_init(&dl[i], doff(md[i].kind));
